@@ -74,11 +74,15 @@ pub struct OffsetWriter {
     pub base: usize,
     pub data: Vec<u8>,
     pub events: Vec<WEvent>,
+    /// when set, an overwrite outside the window is dropped (and counted) instead of refused by
+    /// panic: what a tail-only sink does with a position it no longer holds
+    pub lenient: bool,
+    pub dropped_overwrites: u64,
 }
 
 impl OffsetWriter {
     pub fn new(base: usize) -> Self {
-        OffsetWriter { base, data: Vec::new(), events: Vec::new() }
+        OffsetWriter { base, data: Vec::new(), events: Vec::new(), lenient: false, dropped_overwrites: 0 }
     }
     fn app(&mut self, b: &[u8]) {
         self.events.push(WEvent::Append { at: self.base + self.data.len(), n: b.len() });
@@ -100,6 +104,10 @@ impl Writer for OffsetWriter {
         self.events.push(WEvent::Overwrite { off: offset, n: bytes.len(), len_before: self.base + self.data.len() });
         let ok = offset >= self.base && offset.checked_add(bytes.len()).map(|e| e <= self.base + self.data.len()).unwrap_or(false);
         if !ok {
+            if self.lenient {
+                self.dropped_overwrites += 1;
+                return;
+            }
             panic!("OffsetWriter: overwrite [{}, +{}) outside the window [{}, {})", offset, bytes.len(), self.base, self.base + self.data.len());
         }
         let o = offset - self.base;
